@@ -28,6 +28,11 @@ TEXT = {
         note="Only parents with a status subresource (metacontroller refuses others, see C20). Whether a child error survives a benign end of the status path is left to C12.",
         technique="bounded-exhaustive enumeration of inputs x environment deviations (caused conflicts, injected faults) on the real code, request-log oracle",
     ),
+    "C13": dict(
+        level="Bounded-exhaustive model checking over a response grammar: every single-node (thorough: every two-node) type replacement of a valid hook response, raw malformed bodies and non-200 statuses are fed through the real webhook executor into a real sync that has children to create and to delete; a panic anywhere (including goroutines spawned by the code, which abort the process - caught by the crash protocol) is a violation, and a rejected response must be followed by zero child writes.",
+        note="The 'unbounded coverage-guided fuzzing' part of the quantifier is outside the model-checking family and is not claimed. Trusts the sim for API-level validation of accepted-but-odd children.",
+        technique="bounded-exhaustive grammar enumeration (single and pairwise node replacements) executed on the real code",
+    ),
 }
 
 PENDING_REASON = "check not built yet in this session (planned in DESIGN.md §4); no claim is made until its check runs clean on the unchanged tree"
